@@ -325,7 +325,8 @@ def job_overlapping_writes(j):
     nregs = (refdec.size_of(s0) + 1) // 2 if t not in ('ByteH', 'ByteL') else 1
     vals = domain(s0, False)
     v1, v2 = vals[len(vals) // 2], vals[-1] if vals[-1] != vals[len(vals) // 2] else vals[0]
-    for what, a, b in (('two-values', v1, v2), ('same-value-twice', v1, v1), ('write+read', v1, None)):
+    for what, a, b in (('two-values', v1, v2), ('same-value-twice', v1, v1), ('write+read', v1, None),
+                       ('two-values/first-datagram-lost', v1, v2), ('read+write/first-datagram-lost', None, v1), ('read+write/second-datagram-lost', None, v1)):
         r = make_rig(cfg, transport, fill=lambda a_: ((a_ * 40503 + seed * 31 + 7) & 0xFFFF) % 60000, T=1, R=1, ka=ka)
         inv, dev = r.inv, r.dev
         if r.call(inv.read_device_info)[0] != 'ok':
@@ -333,16 +334,21 @@ def job_overlapping_writes(j):
         s = inv._settings.get(sid)
         w0 = len(dev.writes)
 
+        if what.endswith('-datagram-lost'):
+            dev.drop_at = {len(dev.log) + (1 if 'second' in what else 0)}       # (the lost request is retransmitted: R = 1)
+
         async def both():
-            return await asyncio.gather(inv.write_setting(sid, a), inv.write_setting(sid, b) if b is not None else inv.read_setting(sid),
-                                        return_exceptions=True)
+            return await asyncio.gather(inv.write_setting(sid, a) if a is not None else inv.read_setting(sid),
+                                        inv.write_setting(sid, b) if b is not None else inv.read_setting(sid), return_exceptions=True)
         res = r.call(both)
+        dev.drop_at = set()
         n += 1
         if res[0] != 'ok':
             vio.append((f'write-succeeds/{t}/overlapping/{what}', f'{sid}: {res[1:]}', what))
             continue
-        ok_writes = sum(1 for k_, x in enumerate(res[1]) if not isinstance(x, BaseException) and (k_ == 0 or b is not None))
-        failed = [type(x).__name__ for x in res[1] if isinstance(x, BaseException)]
+        ok_writes = sum(1 for x, val in zip(res[1], (a, b)) if not isinstance(x, BaseException) and val is not None)
+        # (a read next to the write may find content it cannot interpret - ValueError is its documented answer, C11)
+        failed = [type(x).__name__ for x, val in zip(res[1], (a, b)) if isinstance(x, BaseException) and not (val is None and isinstance(x, ValueError))]
         if failed:
             vio.append((f'write-succeeds/{t}/overlapping/{what}', f'{sid}: {failed} on a healthy inverter', what))
         ws = dev.writes[w0:]
